@@ -16,7 +16,8 @@
 From BT Require Import Base.Util Base.Float Model.RTree Model.BBIFile Model.BigWigWrite Model.Pipeline
   Proofs.PipelineInv Proofs.PipelineThms Proofs.PipelineConv Proofs.PipelineLanes.
 From BT Require Model.TempBuf Model.BigBedWrite Proofs.BedZoomFit Proofs.PipelineBed.
-From BT Require Import Model.PipelineConc Proofs.PipelineRefine.
+From BT Require Import Model.PipelineConc Proofs.PipelineRefine Proofs.PipelineLanesProgress
+  Model.PipelineZoom Proofs.PipelineZoom Proofs.PipelineZoomProgress.
 
 (* FIFO order.  In every reachable state, for every completion order of the encode tasks, what the
    write task of chromosome k has written, followed by what is queued, followed by what is not yet
@@ -250,6 +251,121 @@ Theorem C11_splice_concrete : forall g np pre Ss opss sched, g_fifo g = true ->
 Proof. exact pipeline_splice_concrete. Qed.
 Print Assumptions C11_splice_concrete.
 
+(* ---------------------------------------------------------------- the lanes together: no deadlock across lanes
+   The multi-lane machine (data region + zoom levels; the main thread starts / advances a chromosome in all
+   lanes at once and advances only when every lane's producer has submitted everything; one splice loop
+   handles the lanes in a fixed order).  Invariant (Proofs/PipelineLanesProgress.v LGood): every lane's
+   projection satisfies the single-lane invariant, and the phase of the splice loop is in range with the
+   current chromosome started. *)
+
+(* every reachable state that is not terminal has an enabled step *)
+Theorem C11_lanes_progress : forall g Ps Sss K sched, g_fifo g = true -> (1 <= g_cap g)%nat -> (1 <= g_win g)%nat ->
+  length Ps = length Sss -> (1 <= length Sss)%nat -> Forall (fun Ss => length Ss = K) Sss ->
+  let s := lrun g sched (linit Ps Sss) in
+  lterminal s = false -> exists t s', lstep g t s = Some s'.
+Proof. exact lanes_progress. Qed.
+Print Assumptions C11_lanes_progress.
+
+(* every effective step decreases a measure, and every schedule prefix can be completed *)
+Theorem C11_lanes_completion : forall g Ps Sss K sched, g_fifo g = true -> (1 <= g_cap g)%nat -> (1 <= g_win g)%nat ->
+  length Ps = length Sss -> (1 <= length Sss)%nat -> Forall (fun Ss => length Ss = K) Sss ->
+  (forall t s', lstep g t (lrun g sched (linit Ps Sss)) = Some s' ->
+                (lmeasure s' < lmeasure (lrun g sched (linit Ps Sss)))%nat) /\
+  exists more, lterminal (lrun g (sched ++ more) (linit Ps Sss)) = true.
+Proof.
+  intros g Ps Sss K sched Hg Hcap Hwin Hp H1 F. split.
+  - intros t s'. exact (lanes_measure g Ps Sss K sched t s' Hg Hp H1 F).
+  - exact (lanes_completion g Ps Sss K sched Hg Hcap Hwin Hp H1 F).
+Qed.
+Print Assumptions C11_lanes_completion.
+
+(* what can be waited for: (1) after its receive the splice loop only ever waits for a chromosome that has
+   been started (in every lane: start creates all lanes' tasks); (2) at await_real_file of lane j the
+   buffer is closed - the blocking wait is never entered; (3) a producer with something left to submit can
+   submit, or the write task / head encode task of ITS OWN lane can move: a producer serving the lanes one
+   after the other (the real process_val does) is never blocked by another lane or by the splice loop. *)
+Theorem C11_lanes_waits : forall g Ps Sss K sched, g_fifo g = true -> (1 <= g_cap g)%nat ->
+  length Ps = length Sss -> (1 <= length Sss)%nat -> Forall (fun Ss => length Ss = K) Sss ->
+  let s := lrun g sched (linit Ps Sss) in
+  (l_ph s <> LRecv -> l_ph s <> LDone -> (l_k s < l_started s)%nat /\ (l_started s <= K)%nat) /\
+  (forall j, l_ph s = LAwaitFile j -> exists s', lstep g LSplice s = Some s') /\
+  (forall l k c, (l < length Sss)%nat -> (k < l_started s)%nat ->
+     nth_error (nth l (l_lanes s) []) k = Some c -> c_todo c <> [] ->
+     (exists s', lstep g (LProd l k) s = Some s') \/
+     (exists t s', lstep g t s = Some s' /\ (t = LWrite l k \/ t = LEnc l k 0))).
+Proof. exact lanes_waits. Qed.
+Print Assumptions C11_lanes_waits.
+
+(* ---------------------------------------------------------------- the second pass: write_zoom_vals with its final assembly
+   Model/PipelineZoom.v: L zoom levels x K chromosomes; per level one splice task of its own (it receives a
+   chromosome when the main thread ADVANCES it) whose destination is the level's outer staging writer; after
+   process_to_bbi the main thread assembles the levels in order: wait for the level's splice task, append the
+   level's bytes to the file (await_real_file for level 0, expect_closed_write for the others), assign the
+   section offsets, build and write the index, push the directory entry. *)
+
+(* per level, at every moment of every run: the level's store holds whole chromosomes in order; FIFO order *)
+Theorem C11_zoom_levels_splice : forall g o ress pre Sss K sched, g_fifo g = true ->
+  length ress = length Sss -> (1 <= length Sss)%nat -> Forall (fun Ss => length Ss = K) Sss ->
+  let s := zrun g o ress sched (zinit pre Sss) in
+  forall l, (l < length Sss)%nat ->
+    (exists sp, nth_error (z_sp s) l = Some sp /\
+       zs_store sp = data_bytes (concat (firstn (zs_k sp) (nth l Sss []))) /\
+       (zs_pc sp = SDone -> zs_store sp = data_bytes (concat (nth l Sss [])))) /\
+    (forall k c, nth_error (nth l (z_lanes s) []) k = Some c ->
+       c_out c ++ map fst (c_fifo c) ++ c_todo c = nth k (nth l Sss []) []).
+Proof. exact zoom_levels_splice. Qed.
+Print Assumptions C11_zoom_levels_splice.
+
+(* The zoom region.  At every moment of every run the file is the file on entry followed by what the
+   sequential model (Model/BigWigWrite.v write_zooms_two_pass, the zoom part of bw_write_multipass and
+   bb_write_multipass) writes for the levels assembled so far, and the collected directory entries are its
+   entries; every finishing run has written exactly the sequential zoom region and directory. *)
+Theorem C11_zoom_assembly : forall g o ress pre Sss K sched, g_fifo g = true ->
+  length ress = length Sss -> (1 <= length Sss)%nat -> Forall (fun Ss => length Ss = K) Sss ->
+  let s := zrun g o ress sched (zinit pre Sss) in
+  (exists b, write_zooms_two_pass o (Nlen pre) (firstn (z_asm s) (zlevels ress Sss)) = Ok (b, z_hdrs s) /\
+             z_file s = pre ++ b) /\
+  (zterminal s = true ->
+     exists zbytes, write_zooms_two_pass o (Nlen pre) (zlevels ress Sss) = Ok (zbytes, z_hdrs s) /\
+                    z_file s = pre ++ zbytes).
+Proof. exact zoom_assembly. Qed.
+Print Assumptions C11_zoom_assembly.
+
+(* the tie to the bigWig model: whenever bw_write_multipass's zoom part computes its levels, they are the
+   levels of the machine run on the per-level, per-chromosome zoom sections, and every finishing run from a
+   file [pre] has written the model's zoom region at |pre| *)
+Theorem C11_zoom_assembly_bigwig : forall fp o outs zsizes zooms,
+  mapM (fun size => do secs <- concat_res (map (fun c => zoom_sections fp (o_ips o) size (co_id c) (co_vals c)) outs);
+                    Ok {| zl_res := size; zl_secs := secs |}) zsizes = Ok zooms ->
+  exists Sss,
+    Forall2 (fun size Ss => Forall2 (fun c S => zoom_sections fp (o_ips o) size (co_id c) (co_vals c) = Ok S) outs Ss) zsizes Sss /\
+    zooms = zlevels zsizes Sss /\
+    forall g pre sched, g_fifo g = true -> (1 <= length zsizes)%nat ->
+      let s := zrun g o zsizes sched (zinit pre Sss) in
+      zterminal s = true ->
+      exists zbytes, write_zooms_two_pass o (Nlen pre) zooms = Ok (zbytes, z_hdrs s) /\ z_file s = pre ++ zbytes.
+Proof. exact zoom_assembly_bigwig. Qed.
+Print Assumptions C11_zoom_assembly_bigwig.
+
+(* no deadlock, final assembly included: when the sequential model can write the zoom region, every
+   reachable state that is not terminal has an enabled step, and every schedule prefix can be completed into
+   a run that ends with the sequential bytes and directory *)
+Theorem C11_zoom_progress : forall g o ress pre Sss K sched zb hs, g_fifo g = true -> (1 <= g_cap g)%nat -> (1 <= g_win g)%nat ->
+  length ress = length Sss -> (1 <= length Sss)%nat -> Forall (fun Ss => length Ss = K) Sss ->
+  write_zooms_two_pass o (Nlen pre) (zlevels ress Sss) = Ok (zb, hs) ->
+  let s := zrun g o ress sched (zinit pre Sss) in
+  zterminal s = false -> exists t s', zstep g o ress t s = Some s'.
+Proof. exact zoom_progress. Qed.
+Print Assumptions C11_zoom_progress.
+
+Theorem C11_zoom_completion : forall g o ress pre Sss K sched zb hs, g_fifo g = true -> (1 <= g_cap g)%nat -> (1 <= g_win g)%nat ->
+  length ress = length Sss -> (1 <= length Sss)%nat -> Forall (fun Ss => length Ss = K) Sss ->
+  write_zooms_two_pass o (Nlen pre) (zlevels ress Sss) = Ok (zb, hs) ->
+  exists more, let s := zrun g o ress (sched ++ more) (zinit pre Sss) in
+    zterminal s = true /\ z_file s = pre ++ zb /\ z_hdrs s = hs.
+Proof. exact zoom_completion. Qed.
+Print Assumptions C11_zoom_completion.
+
 (* ---------------------------------------------------------------- non-vacuity *)
 Local Open Scope N_scope.
 Definition sec (c s e : N) (b : bytes) : sdata := {| sd_chrom := c; sd_start := s; sd_end := e; sd_bytes := b |}.
@@ -397,3 +513,55 @@ Example C11_example_concrete_round_robin :
   map (fun x => TempBuf.c_obs (x_buf x)) (k_x s) =
     [[TempBuf.OReady false; TempBuf.OReady false]; [TempBuf.OReady true; TempBuf.OReady true]; [TempBuf.OReady true; TempBuf.OReady true]].
 Proof. vm_compute. repeat split. Qed.
+
+(* lanes: a reachable state that is not terminal, with the splice loop waiting for lane 1 (zoom) of chromosome 0
+   while lane 0 of chromosome 1 is still being produced (hypotheses of C11_lanes_progress / C11_lanes_waits) *)
+Example C11_example_lanes_nonterminal :
+  let s := lrun ex_g [LMain; LMain; LSplice; LSplice; LProd 0 0; LProd 0 0; LEnc 0 0 0; LEnc 0 0 1; LWrite 0 0; LWrite 0 0;
+                      LProd 1 0; LMain; LWrite 0 0; LSplice; LSplice; LProd 0 1] (linit [[100]; [200]] ex_lanes) in
+  lterminal s = false /\ l_ph s = LAwaitTask 1 /\ l_k s = 0%nat /\ l_files s = [[100; 1; 2; 3]; [200]].
+Proof. vm_compute. repeat split. Qed.
+
+(* the second pass: two levels, three chromosomes (level 1 has no section for chromosome 2), serial source, capacity 1,
+   round-robin; the zoom region and the directory are the sequential model's *)
+Definition ex_zoom : list (list (list sdata)) :=
+  [ [[sec 0 0 5 [1; 2]; sec 0 5 9 [3]]; [sec 1 0 7 [4]];      [sec 2 0 9 [5; 6]]];
+    [[sec 0 0 9 [50]];                  [sec 1 0 7 [51; 52]]; []] ].
+Example C11_example_zoom :
+  let s := zrun (mkg 1 1 true) ex_bb_opts [10; 40] (zrounds 30 (all_ztasks 2 3 1)) (zinit [100] ex_zoom) in
+  zterminal s = true /\
+  write_zooms_two_pass ex_bb_opts 1 (zlevels [10; 40] ex_zoom) = Ok (skipn 1 (z_file s), z_hdrs s) /\
+  firstn 7 (z_file s) = [100; 1; 2; 3; 4; 5; 6] /\
+  z_hdrs s = [{| zh_res := 10; zh_data := 1; zh_index := 7 |}; {| zh_res := 40; zh_data := 187; zh_index := 190 |}].
+Proof. vm_compute. repeat split. Qed.
+
+(* an interleaved schedule: level 1 is completely spliced for chromosome 0 before level 0 has written anything, the
+   assembly is attempted too early (stutters), level 1's task finishes before level 0's *)
+Example C11_example_zoom_interleaved :
+  let s := zrun ex_g ex_bb_opts [10; 40]
+             ([ZMain; ZMain; ZMain; ZProd 1 0; ZEnc 1 0 0; ZWrite 1 0; ZProd 1 1; ZSplice 1 (* not advanced: stutters *);
+               ZProd 0 0; ZProd 0 0; ZEnc 0 0 1; ZMain; ZSplice 1; ZWrite 1 0; ZSplice 1; ZSplice 1; ZMain (* assembly: stutters *)]
+              ++ zrounds 30 (all_ztasks 2 3 2)) (zinit [100] ex_zoom) in
+  zterminal s = true /\ write_zooms_two_pass ex_bb_opts 1 (zlevels [10; 40] ex_zoom) = Ok (skipn 1 (z_file s), z_hdrs s).
+Proof. vm_compute. repeat split. Qed.
+
+(* a non-terminal state of the second-pass machine in the final assembly (level 0 assembled, level 1's task not done) *)
+Example C11_example_zoom_nonterminal :
+  let s := zrun (mkg 1 1 true) ex_bb_opts [10; 40]
+             (zrounds 30 (filter (fun t => match t with ZSplice 1 => false | _ => true end) (all_ztasks 2 3 1))) (zinit [100] ex_zoom) in
+  zterminal s = false /\ z_closed s = true /\ z_asm s = 1%nat.
+Proof. vm_compute. repeat split. Qed.
+
+(* the levels of a real bigWig input satisfy the hypothesis of C11_zoom_assembly_bigwig *)
+Example C11_example_zoom_bigwig_hyp :
+  exists ids outs sum data zooms,
+    bw_collect ieee ex_bb_opts [([97], 100); ([98], 50)]
+      [([97], {| v_start := 0; v_end := 5; v_bits := 1065353216 |}); ([97], {| v_start := 5; v_end := 9; v_bits := 1073741824 |});
+       ([97], {| v_start := 20; v_end := 30; v_bits := 1065353216 |}); ([98], {| v_start := 1; v_end := 2; v_bits := 1065353216 |})]
+    = Ok (ids, outs, sum, data) /\
+    mapM (fun size => do secs <- concat_res (map (fun c => zoom_sections ieee (o_ips ex_bb_opts) size (co_id c) (co_vals c)) outs);
+                      Ok {| zl_res := size; zl_secs := secs |}) [10; 40] = Ok zooms /\
+    map (fun z => length (zl_secs z)) zooms = [2%nat; 2%nat].
+Proof.
+  eexists. eexists. eexists. eexists. eexists. split; [vm_compute; reflexivity|]. vm_compute. split; reflexivity.
+Qed.
